@@ -169,12 +169,10 @@ theorem stepsOk_append {a b : List Step} (ha : StepsOk a) (hb : StepsOk b) : Ste
   · exact hb s h
 
 theorem convTopic_ok (c : Ctx) (hc : WfCtx c) (t : Topic) : StepsOk (convTopic c t) := by
-  unfold convTopic
-  cases t.type with
-  | publish msgs => exact acceptTopic_ok c hc _
-  | reqres reqs reps => exact stepsOk_append (acceptTopic_ok c hc _) (acceptTopic_ok c hc _)
-  | event en msg => exact acceptTopic_ok c hc _
-  | upsert en msg => exact acceptTopic_ok c hc _
+  intro s hs
+  unfold convTopic at hs
+  obtain ⟨tn, _, hst⟩ := List.mem_flatMap.mp hs
+  exact acceptTopic_ok c hc tn s hst
 
 theorem convTopicFile_ok (c : Ctx) (hc : WfCtx c) (ts : List Topic) : StepsOk (convTopicFile c ts) := by
   intro s hs
